@@ -327,5 +327,6 @@ MUTANTS = [
       "        if not isinstance(quality, int):", "        self._jpeg_quality = quality\n        if not isinstance(quality, int):", {"R2"}),
     M("image-truth-value", CM, "BaseImage.__del__", "    def __del__(self) -> None:\n", "    def __bool__(self) -> bool:\n        return not getattr(self, \"_closed\", True)\n\n    def __del__(self) -> None:\n", {"R6"}),
     M("library-writes-setting", IT, "ITerm2Image._display_animated", "        super()._display_animated(img, alpha, fmt, *args, mix=True, **kwargs)\n", "        self.jpeg_quality = self.jpeg_quality\n        super()._display_animated(img, alpha, fmt, *args, mix=True, **kwargs)\n", {"R2"}),
+    M("dispatch-on-call-argument", IT, "ITerm2Image._render_image", "if render_method == ANIM and self._is_animated and not frame:", "if method and method.lower() == ANIM and self._is_animated and not frame:", {"R3"}),
     M("twin-dict-guard", CM, "BaseImage.set_render_method", "in vars(cls):", "in cls.__dict__:", twin=True),
 ]
